@@ -119,9 +119,21 @@ struct Spec {
 
 fn gen_spec(ch: &mut Ch) -> Spec {
     let limit = *ch.pick(&[1u8, 0, 2, 3, 10, 254, 255], "o.limit");
-    let all_paths = ["temp", "a/b", "x"];
+    // "temp" first; its neighbours with an empty leading / trailing segment
+    // ("/temp" = segments ["", "temp"], "temp/" = ["temp", ""]) are different
+    // resources
+    let pool = ["temp", "a/b", "x", "/temp", "temp/", "a"];
     let np = 1 + ch.below(3, "o.npaths") as usize;
-    let paths: Vec<String> = all_paths[..np].iter().map(|s| s.to_string()).collect();
+    let mut paths: Vec<String> = vec![pool[0].to_string()];
+    while paths.len() < np {
+        let c = pool[ch.below(pool.len() as u64, "o.path.pick") as usize].to_string();
+        if !paths.contains(&c) {
+            paths.push(c);
+        } else {
+            let c2 = pool.iter().map(|x| x.to_string()).find(|x| !paths.contains(x)).unwrap();
+            paths.push(c2);
+        }
+    }
     let long = ch.chance(1, 6, "o.long") || (limit >= 254 && ch.chance(1, 2, "o.long254"));
     let nrounds = if long { 260 + ch.below(341, "o.nrounds.long") } else { 1 + ch.below(40, "o.nrounds") } as usize;
     let horizon = nrounds as u64 * 100 * MS;
@@ -143,7 +155,7 @@ fn gen_spec(ch: &mut Ch) -> Spec {
         rounds.push((50 * MS, usize::MAX, true));
     }
     let faults = ch.below(10, "o.faulty") >= 3;
-    let nc = 2 + ch.below(4, "o.nclients") as usize;
+    let nc = 2 + ch.below(5, "o.nclients") as usize;
     let mut clients = Vec::new();
     for ci in 0..nc {
         let nops = 1 + ch.below(if long { 12 } else { 6 }, "o.nops") as usize;
@@ -502,6 +514,30 @@ fn run_direct(ch: &mut Ch, verbose: bool) -> Outcome {
             out.groups.push((format!("direct histories of depth {}", n), hist.0));
         }
     }
+    // the notification builder over its whole parameter space (C15: token
+    // 0-8 bytes, sequence across the byte-length boundaries, both types)
+    for _ in 0..2 {
+        let seq = *ch.pick(&[0u32, 1, 255, 256, 257, 65_535, 65_536, (1 << 24) - 1, 1 << 24, (1 << 24) + 1, u32::MAX, 0x0100_0000, 0x00FF_00FF], "od.b.seq");
+        let tl = ch.below(9, "od.b.toklen") as usize;
+        let token: Vec<u8> = (0..tl).map(|i| 0xC0 + i as u8).collect();
+        let con = ch.below(2, "od.b.con") == 1;
+        let mid = *ch.pick(&[0u16, 1, 255, 256, 65_535, 0x1234], "od.b.mid");
+        let payload: Vec<u8> = vec![0x70; ch.below(4, "od.b.paylen") as usize];
+        let ok = match guard(|| create_notification(mid, token.clone(), seq, payload.clone(), con)) {
+            Err(_) => false,
+            Ok(pkt) => match pkt.to_bytes_unlimited().ok().and_then(|b| crate::refparse::accept(&b)) {
+                None => false,
+                Some(d) => {
+                    let v = d.first_opt(6).filter(|b| b.len() <= 4).map(|b| b.iter().fold(0u32, |a, x| (a << 8) | *x as u32));
+                    d.token == token && d.mid == mid && d.mtype() == if con { 0 } else { 1 } && d.payload == payload && v == Some(seq) && d.opt_values(6).len() == 1
+                }
+            },
+        };
+        w.stats.hit("c15.builder.checked");
+        if !ok {
+            w.viol.push(Violation::new("C15", "notification", format!("create_notification(mid {}, token of {} bytes, sequence {}, {} payload bytes, con {}) does not encode to these values", mid, tl, seq, payload.len(), con)).with_sig("builder"));
+        }
+    }
     w.stats.hit("observe.direct-short-histories");
     out.hash = hist.0;
     out.violations = std::mem::take(&mut w.viol);
@@ -756,7 +792,13 @@ pub fn run(ch: &mut Ch, verbose: bool) -> Outcome {
                 if req.message.header.code != MessageClass::Request(RequestType::Get) {
                     continue;
                 }
-                let path = req.get_path();
+                // the resource the client addressed: its Uri-Path segments
+                // joined with '/', taken from the reference parser's view of the
+                // datagram (not from the crate's get_path)
+                let path = match crate::refparse::accept(&bytes) {
+                    Some(f) => f.opt_values(11).iter().map(|sg| String::from_utf8_lossy(sg).to_string()).collect::<Vec<_>>().join("/"),
+                    None => req.get_path(),
+                };
                 let token = req.message.get_token().to_vec();
                 match req.get_observe_flag() {
                     Some(Ok(ObserveOption::Register)) => {
@@ -853,6 +895,11 @@ pub fn run(ch: &mut Ch, verbose: bool) -> Outcome {
                         }
                     }
                     w.last_seq.insert(key, seq);
+                    // a registration that ended (eviction, cancellation, new
+                    // token) ends its ordering obligation with it
+                    let live_now: Vec<(Ep, Vec<u8>)> = observers.clone();
+                    let pth = path.clone();
+                    w.last_seq.retain(|(p0, e0, t0), _| *p0 != pth || live_now.iter().any(|(e1, t1)| e1 == e0 && t1 == t0));
                     if let Some(ci) = spec.clients.iter().position(|c| c.ep == *ep) {
                         let truth = Notif { path: path.clone(), token: token.clone(), mid, con, seq, payload: payload.clone(), is_notification: true };
                         for d in net_send(&spec.clients[ci].net, &bytes, ch, &mut w.stats) {
